@@ -90,15 +90,35 @@ def strip_comments(src):
     return ''.join(out)
 
 
-def grep_forbidden():
+def import_closure(prop_id):
+    """Lean files (relative to lean/) that Sio.Props.<id> transitively imports from this project."""
+    todo = ['Sio.Props.' + prop_id, 'Sio.Audit.' + prop_id]
+    seen = {}
+    while todo:
+        m = todo.pop()
+        if m in seen:
+            continue
+        path = os.path.join(LEAN, *m.split('.')) + '.lean'
+        if not os.path.exists(path):
+            continue
+        src = open(path).read()
+        seen[m] = path
+        for imp in re.findall(r'^\s*(?:public\s+)?import\s+(Sio\.[\w.]+)', src, re.M):
+            todo.append(imp)
+    return sorted(seen.values())
+
+
+def grep_forbidden(prop_id=None):
+    """forbidden tokens in the files the property's theorems depend on (comments stripped)"""
     hits = []
-    for base, _, files in os.walk(os.path.join(LEAN, 'Sio')):
-        for f in files:
-            if f.endswith('.lean'):
-                p = os.path.join(base, f)
-                src = strip_comments(open(p).read())
-                for m in FORBIDDEN.finditer(src):
-                    hits.append('%s: %s' % (os.path.relpath(p, LEAN), m.group(0).strip()))
+    if prop_id is None:
+        files = [os.path.join(b, f) for b, _, fs in os.walk(os.path.join(LEAN, 'Sio')) for f in fs if f.endswith('.lean')]
+    else:
+        files = import_closure(prop_id)
+    for p in files:
+        src = strip_comments(open(p).read())
+        for m in FORBIDDEN.finditer(src):
+            hits.append('%s: %s' % (os.path.relpath(p, LEAN), m.group(0).strip()))
     return hits
 
 
@@ -143,7 +163,7 @@ def audit(prop_id):
             res['problems'].append('theorem %s depends on %s' % (name, bad))
         else:
             res['discharged'] += 1
-    for h in grep_forbidden():
+    for h in grep_forbidden(prop_id):
         res['problems'].append('forbidden token: ' + h)
     return res
 
